@@ -199,3 +199,41 @@ fn num_128_delegates() {
     sobl!(unsafe { OTHER_PATH > 0 || (I_CALLS == 1 && I_SIZE == 16 && I_VAL == bits) }, "num128.every_value_goes_to_itoa_unchanged", "C14");
     sobl!(unsafe { OTHER_PATH > 0 || (F_CALLS == 1 && F_PTR == ITOA_OUT.as_ptr() && F_LEN == ITOA_OUT.len()) }, "num128.text_is_itoas_output", "C14");
 }
+
+// ---------------------------------------------------------------------------------------
+// f32 / f64: the crate hands the value to `ryu` and the text to from_str. Only this hand-over
+// is under contract (round-tripping is ryu's and core::str::parse's: outside this technique).
+// ---------------------------------------------------------------------------------------
+
+static mut R_CALLS: usize = 0;
+static mut R_BITS: u64 = 0;
+static mut R_SIZE: usize = 0;
+static RYU_OUT: &str = "ryu-output";
+
+fn rec_ryu<F: ryu::Float>(_b: &mut ryu::Buffer, f: F) -> &str {
+    unsafe {
+        R_CALLS += 1;
+        R_SIZE = core::mem::size_of::<F>();
+        if core::mem::size_of::<F>() == 8 {
+            R_BITS = core::mem::transmute_copy::<F, u64>(&f);
+        } else if core::mem::size_of::<F>() == 4 {
+            R_BITS = core::mem::transmute_copy::<F, u32>(&f) as u64;
+        }
+    }
+    RYU_OUT
+}
+
+// @harness name=float_delegates props=C15 class=U tier=quick fn=NumToRepr<f32>::into_repr,NumToRepr<f64>::into_repr
+#[kani::proof]
+#[kani::stub(ryu::Buffer::format, rec_ryu)]
+#[kani::stub(Repr::from_str, rec_from_str)]
+fn float_delegates() {
+    let wide: bool = kani::any();
+    let bits: u64 = kani::any();
+    let r = if wide { Repr::from_num(f64::from_bits(bits)) } else { Repr::from_num(f32::from_bits(bits as u32)) };
+    let want = if wide { bits } else { (bits as u32) as u64 };
+    sobl!(r.is_ok(), "float.ok", "C15");
+    // every bit pattern (NaNs, infinities, both zeros, subnormals) reaches ryu unchanged
+    sobl!(unsafe { R_CALLS == 1 && R_SIZE == (if wide { 8 } else { 4 }) && R_BITS == want }, "float.every_bit_pattern_goes_to_ryu_unchanged", "C15");
+    sobl!(unsafe { F_CALLS == 1 && F_PTR == RYU_OUT.as_ptr() && F_LEN == RYU_OUT.len() }, "float.text_is_ryus_output", "C15");
+}
